@@ -66,10 +66,25 @@ pub fn check_pair(c: &CmpPair) -> Verdict {
     ensure!(v, (ra == &b) == (want == Ordering::Equal), sig("ref-eq-borrow"), "ref == &BigDecimal is {}", ra == &b);
     ensure!(v, (ra < rb) == (want == Ordering::Less), sig("ref-lt"), "ref < ref is {}", ra < rb);
     ensure!(v, (ra >= rb) == (want != Ordering::Less), sig("ref-ge"), "ref >= ref is {}", ra >= rb);
+    ensure!(v, (ra != rb) == (want != Ordering::Equal), sig("ref-ne"), "ref != ref is {}", ra != rb);
+    ensure!(v, (ra <= rb) == (want != Ordering::Greater), sig("ref-le"), "ref <= ref is {}", ra <= rb);
+    ensure!(v, (ra > rb) == (want == Ordering::Greater), sig("ref-gt"), "ref > ref is {}", ra > rb);
+    {
+        let (emx, emn) = if want == Ordering::Less { (&mb, &ma) } else { (&ma, &mb) };
+        let (rmx, rmn) = (std::cmp::max(ra, rb), std::cmp::min(ra, rb));
+        ensure!(v, crate::conv::dec_of(&rmx.to_owned()).eq_val(emx), sig("ref-max"), "max(ref a, ref b) = {}", crate::conv::dec_of(&rmx.to_owned()).show());
+        ensure!(v, crate::conv::dec_of(&rmn.to_owned()).eq_val(emn), sig("ref-min"), "min(ref a, ref b) = {}", crate::conv::dec_of(&rmn.to_owned()).show());
+    }
     // references whose sign was flipped / dropped without touching the digits
     let (na, nb) = (-ra, -rb);
     ensure!(v, na.cmp(&nb) == want.reverse(), sig("negref-cmp"), "(-a).cmp(-b) = {} expected {}", ord_name(na.cmp(&nb)), ord_name(want.reverse()));
     ensure!(v, (na == nb) == (want == Ordering::Equal), sig("negref-eq"), "(-a) == (-b) is {}", na == nb);
+    // one side flipped, the other not
+    let want_mixed = ma.neg().cmp_val(&mb);
+    ensure!(v, na.cmp(&rb) == want_mixed, sig("negref-mixed-cmp"), "(-a).cmp(b) = {} expected {}", ord_name(na.cmp(&rb)), ord_name(want_mixed));
+    ensure!(v, (na == rb) == (want_mixed == Ordering::Equal), sig("negref-mixed-eq"), "(-a) == b is {}", na == rb);
+    let want_mixed2 = ma.cmp_val(&mb.abs());
+    ensure!(v, ra.cmp(&rb.abs()) == want_mixed2, sig("absref-mixed-cmp"), "a.cmp(|b|) = {} expected {}", ord_name(ra.cmp(&rb.abs())), ord_name(want_mixed2));
     let want_abs = ma.abs().cmp_val(&mb.abs());
     ensure!(v, ra.abs().cmp(&rb.abs()) == want_abs, sig("absref-cmp"), "|a|.cmp(|b|) = {} expected {}", ord_name(ra.abs().cmp(&rb.abs())), ord_name(want_abs));
     ensure!(v, (ra.abs() == rb.abs()) == (want_abs == Ordering::Equal), sig("absref-eq"), "|a| == |b| is {}", ra.abs() == rb.abs());
@@ -105,6 +120,27 @@ pub fn check_sort(c: &SortCase) -> Verdict {
     got.sort_by_key(key);
     want.sort_by_key(key);
     ensure!(v, got == want, "C02/sort-permutation", "sorted output is not a permutation of the input");
+    // the same through references
+    {
+        let owned: Vec<BigDecimal> = c.items.iter().map(|d| d.bd()).collect();
+        let mut refs: Vec<bigdecimal::BigDecimalRef> = owned.iter().map(|x| x.to_ref()).collect();
+        refs.sort();
+        for w in refs.windows(2) {
+            let (x, y) = (crate::conv::dec_of(&w[0].to_owned()), crate::conv::dec_of(&w[1].to_owned()));
+            ensure!(v, x.cmp_val(&y) != Ordering::Greater, "C02/ref-sort-order", "sorted references have {} before {}", x.show(), y.show());
+        }
+        let mut got: Vec<D> = refs.iter().map(|r| D::of(&r.to_owned())).collect();
+        got.sort_by_key(key);
+        ensure!(v, got == want, "C02/ref-sort-permutation", "sorted references are not a permutation of the input");
+        if let (Some(mx), Some(mn)) = (owned.iter().map(|x| x.to_ref()).max(), owned.iter().map(|x| x.to_ref()).min()) {
+            let (mx, mn) = (crate::conv::dec_of(&mx.to_owned()), crate::conv::dec_of(&mn.to_owned()));
+            for d in &c.items {
+                let m = d.dec();
+                ensure!(v, m.cmp_val(&mx) != Ordering::Greater, "C02/ref-iter-max", "{} exceeds reference iterator max {}", m.show(), mx.show());
+                ensure!(v, m.cmp_val(&mn) != Ordering::Less, "C02/ref-iter-min", "{} below reference iterator min {}", m.show(), mn.show());
+            }
+        }
+    }
     // max / min over the iterator
     if let (Some(mx), Some(mn)) = (c.items.iter().map(|d| d.bd()).max(), c.items.iter().map(|d| d.bd()).min()) {
         let (mx, mn) = (crate::conv::dec_of(&mx), crate::conv::dec_of(&mn));
@@ -148,6 +184,21 @@ fn twin_pair(x: &BigUint, base_scale: i64, gap: u64, variant: u8, negative: bool
     } else {
         CmpPair { a: coarse, b: fine }
     }
+}
+
+/// a twin pair with a scale gap far beyond the sweep (kept compact: the operands have `gap` digits)
+#[derive(Clone, Debug, Hash, Serialize, Deserialize)]
+pub struct BigGap {
+    pub x: String,
+    pub gap: u64,
+    pub variant: u8,
+    pub negative: bool,
+    pub scaled_first: bool,
+}
+
+pub fn check_biggap(c: &BigGap) -> Verdict {
+    let x: BigUint = c.x.parse().unwrap();
+    check_pair(&twin_pair(&x, 0, c.gap, c.variant, c.negative, c.scaled_first))
 }
 
 const QUICK_GAPS: &[u64] = &[1, 2, 3, 4, 5, 6, 7, 8, 9, 10, 11, 12, 13, 14, 15, 16, 17, 18, 19, 20, 21, 22, 30, 45, 60];
@@ -347,16 +398,36 @@ pub fn run(ctx: &Ctx) {
             "pair",
             max_gap * nc * 8,
             true,
-            &format!("EXHAUSTIVE: every scale gap 1..={} x {} coefficients around powers of two / ten x {{twin, +1, -1, +2^32, +3*2^64, +2^96, +5*2^128, +2^192}} (sign and side alternate with the index)", max_gap, nc),
+            &format!("EXHAUSTIVE: every scale gap 1..={} x {} coefficients around powers of two / ten x {{twin, +1, -1, +2^32, +3*2^64, +2^96, +5*2^128, +2^192}} (sign and side drawn from a hash of the index)", max_gap, nc),
             move |i| {
                 let gap = 1 + i % max_gap;
                 let k = i / max_gap;
                 let x = &coeffs[(k % nc) as usize];
                 let variant = (k / nc) as u8;
-                Some(twin_pair(x, (i % 7) as i64 - 3, gap, variant, i % 2 == 1, (i / 2) % 2 == 0))
+                // sign and side from a hash of the index, so that every gap meets every combination
+                let h = SplitMix(i).next();
+                Some(twin_pair(x, (i % 7) as i64 - 3, gap, variant, h & 1 == 1, h & 2 == 0))
             },
             check_pair,
         );
+    }
+    {
+        // value-equal and neighbouring pairs whose scales differ by 10^4 .. 10^6: the only inputs on which the
+        // float estimate of floor(gap * log2 10) in the early-out decides (it must never be too large)
+        let gaps: Vec<u64> = t.pick(vec![10_000, 30_103, 100_000], vec![10_000, 16_384, 30_103, 65_536, 100_000, 262_144, 301_030, 1_000_000, 2_097_152, 3_010_300]);
+        let mut cases = Vec::new();
+        for (gi, g) in gaps.iter().enumerate() {
+            let xs: &[&str] = t.pick(&["1", "9", "18446744073709551615"], &["1", "3", "9", "18446744073709551615", "340282366920938463463374607431768211456"]);
+            for (xi, x) in xs.iter().enumerate() {
+                for variant in 0..3u8 {
+                    let k = gi + xi + variant as usize;
+                    cases.push(BigGap { x: x.to_string(), gap: *g, variant, negative: k % 2 == 1, scaled_first: (k / 2) % 2 == 0 });
+                }
+            }
+        }
+        // the checked build is several times slower on operands of 10^5 digits: it takes the two smallest gaps only
+        let cases: Vec<BigGap> = if ctx.flavour == "chk" { cases.into_iter().filter(|c| c.gap <= 30_103).collect() } else { cases };
+        ctx.listed("huge-gaps", "biggap", "x vs x*10^g (twin, +1, -1) for g from 10^4 to 3*10^6 (quick: 10^5), x in {1, 3, 9, 2^64-1, 2^128} (quick: 1, 9, 2^64-1): scale gaps far beyond the sweep", cases, check_biggap);
     }
     let max_len = t.pick(300usize, 3000);
     let n = t.pick(200_000u64, 2_000_000);
